@@ -283,7 +283,30 @@ def shard(ctx, idxs, n):
         check_sampler(G, ctx, T[i], n)
 
 
+def source_table_obligation(ctx, audit):
+    """TRANSLATOR tie: regenerate (name -> TFP class, parameter feeds) from the current source of distributions.py and let Lean
+    re-check it against the documented table the spec terms are written for (theorem implTable_is_documented)."""
+    import dist_translate
+    impl.load()
+    pts = {}
+    for t in table():
+        pts.setdefault(t["name"], (t["params"], t["kw"]))
+    tab = dist_translate.extract(common.REPO, pts)
+    ok, log = dist_translate.obligation(common.LEAN, tab)
+    audit["obligations"] = audit.get("obligations", 0) + 1
+    audit.setdefault("theorems", []).append("implTable_is_documented (regenerated from src/genjax/distributions.py)")
+    if ok:
+        audit["discharged"] = audit.get("discharged", 0) + 1
+    else:
+        audit["ok"] = False
+        audit.setdefault("bad", []).append("implTable_is_documented: the table regenerated from distributions.py is not the documented table (DistDoc.docTable)")
+        audit["log"] = (audit.get("log") or "") + "\n" + log + "\nregenerated table:\n" + dist_translate.lean_table(tab)
+    ctx.count("translator:distributions.py entries", len(tab))
+    return ok
+
+
 def run(ctx, audit):
+    source_table_obligation(ctx, audit)
     T = table()
     n = 20000 if ctx.thorough else 4000
     k = 12
